@@ -3,8 +3,11 @@ the real validator order, MC_NodeEnv configurations."""
 import json, os
 from vlib import Infra
 
-def proposer_table(c, maxh=4, maxr=12):
-    g = c.gotest("node", "TestProposerTable", env=dict(NODE_MAXH=maxh, NODE_MAXR=maxr), timeout=600, tag="proposer table")
+def proposer_table(c, maxh=4, maxr=12, powers=None):
+    e = dict(NODE_MAXH=maxh, NODE_MAXR=maxr)
+    if powers:
+        e["NODE_POWERS"] = ",".join(map(str, powers))
+    g = c.gotest("node", "TestProposerTable", env=e, timeout=600, tag="proposer table")
     t = (g.get("extra") or {}).get("proposer_table")
     if not t:
         raise Infra("no proposer table from the real validator set")
@@ -31,9 +34,9 @@ def cfg_env(me, depth, usedie, maxround=3, maxheight=2, bids='{"A", "X"}', invar
         s += "INVARIANT %s\n" % i
     return s + extra
 
-def env_walks(c, table, me, num_per_worker, depth, seed, tag, workers=None, maxround=3, maxheight=2, bids='{"A", "X"}', timeout=1500, prefixes=False, waittxs=False):
+def env_walks(c, table, me, num_per_worker, depth, seed, tag, workers=None, maxround=3, maxheight=2, bids='{"A", "X"}', timeout=1500, prefixes=False, waittxs=False, powers=(1, 1, 1, 1)):
     """Simulation: weighted random walks of the adversarial environment, printed at their end."""
-    files = gen_env(table, prefixes=prefixes)
+    files = gen_env(table, powers=powers, prefixes=prefixes)
     files["MCsim.cfg"] = cfg_env(me, depth, True, maxround, maxheight, bids, extra="", waittxs=waittxs)
     dump = os.path.join(c.scratch, "walks-%s.dump" % tag)
     r = c.tlc("node", "MCsim.cfg", module="MCgen", files=files, dump_to=dump, timeout=timeout, workers=workers,
@@ -44,9 +47,9 @@ def env_walks(c, table, me, num_per_worker, depth, seed, tag, workers=None, maxr
         raise Infra("TLC failed on %s: %s\n%s" % (tag, r.error, c.tlc_tail(r)))
     return dump
 
-def env_bfs(c, table, me, depth, tag, dump=True, maxround=3, bids='{"A", "X"}', timeout=3000, prefixes=False, waittxs=False):
+def env_bfs(c, table, me, depth, tag, dump=True, maxround=3, bids='{"A", "X"}', timeout=3000, prefixes=False, waittxs=False, powers=(1, 1, 1, 1)):
     """Exhaustive BFS of the adversarial environment to a small depth; every transition printed."""
-    files = gen_env(table, prefixes=prefixes)
+    files = gen_env(table, powers=powers, prefixes=prefixes)
     files["MCbfs.cfg"] = cfg_env(me, depth, False, maxround, 2, bids, extra="ACTION_CONSTRAINT Dump\n" if dump else "", waittxs=waittxs)
     path = os.path.join(c.scratch, "bfs-%s.dump" % tag)
     r = c.tlc("node", "MCbfs.cfg", module="MCgen", files=files, dump_to=path, timeout=timeout, tag=tag)
